@@ -239,9 +239,12 @@ def c18(cases, res):
     images = {}
     for case in cases:
         for i, prev, s in steps_with_prev(case):
-            if prev is not None and is_key(s) and state_of(prev) != "Entering" and key_code(s) == 0 and key_mods(s)[2]:
+            if prev is not None and is_key(s) and state_of(prev) != "Entering" and key_code(s) == 0 and key_mods(s)[2] \
+                    and not (state_of(prev) == "Selecting" and (key_mods(s)[0] or key_mods(s)[1])):
                 # Caps Lock toggles the language mode in every editor state (pending syllable, open list, highlighting)
-                # and never alters the text in the buffer
+                # and never alters the text in the buffer.  (The Caps Lock event is the one chewing_handle_Capslock
+                # sends: no other modifier.  An event that also carries Shift or Ctrl is refused with a bell while a
+                # candidate list is open, like every Shift / Ctrl combination there - not what the property is about.)
                 po, o = opts_of(prev), opts_of(s)
                 # (an auto-commit after the key - limit lowered below the buffer length - is C02's business)
                 same_text = s.res == "Commit" or (prev.snap.get("syms") == s.snap.get("syms") and prev.snap.get("sels") == s.snap.get("sels"))
